@@ -212,12 +212,14 @@ ISAS = [
     isa.IsaCfg("PIC16C8x", "IsaPic16_Gen", [("16C84", "16C84"), ("16C64", "16C64"), ("16C873", "16C873"),
                                              ("16C874", "16C874"), ("16C876", "16C876"), ("16C877", "16C877")],
                unit_bytes=2, quick=["16C84", "16C877"]),
-    isa.IsaCfg("AVR", "IsaAvr_Gen", [("AT90S8515", "AT90S8515"), ("ATMEGA128", "ATMEGA128")], unit_bytes=2,
-               quick=["ATMEGA128"]),
+    # DEVICE dimension (spec/IsaAvr.tla): two cores x two memory sizes (program / data address ranges, JMP / CALL, ELPM)
+    isa.IsaCfg("AVR", "IsaAvr_Gen", [("AT90S8515", "AT90S8515"), ("ATMEGA128", "ATMEGA128"), ("AT90S2313", "AT90S2313"),
+                                      ("ATMEGA16", "ATMEGA16")], unit_bytes=2, quick=["ATMEGA128", "AT90S2313"]),
     isa.IsaCfg("Z80", "IsaZ80_Gen", [("Z80", "Z80")]),
     # "MSP430:sample" = MOV / ADD.B / CMP[.B] + format II + jumps + emulated (see IsaMsp430.tla)
-    isa.IsaCfg("MSP430", "IsaMsp430_Gen", [("MSP430:sample", "MSP430"), ("MSP430", "MSP430")], unit_bytes=2, addr_step=2,
-               quick=["MSP430:sample"], thorough=["MSP430"]),
+    # "MSP430X:sample" = the same subset under CPU MSP430X (variant dimension: the base set is unchanged on the 430X)
+    isa.IsaCfg("MSP430", "IsaMsp430_Gen", [("MSP430:sample", "MSP430"), ("MSP430", "MSP430"), ("MSP430X:sample", "MSP430X")],
+               unit_bytes=2, addr_step=2, quick=["MSP430:sample"], thorough=["MSP430", "MSP430X:sample"]),
     # beyond the property's list: the 6800 table exists because C15 needs it, so it is checked the same way
     isa.IsaCfg("6800", "Isa6800_Gen", [("6800", "6800")]),
 ]
@@ -228,6 +230,9 @@ ALIAS = {"4004/4040": "Isa4004_Alias", "AVR": "IsaAvr_Alias", "MSP430": "IsaMsp4
 # quick tier: CPU variants whose case space takes every definition scenario for every (form, position, register);
 # the others rotate the scenario (IsaAlias.tla ScenMode); thorough: every scenario everywhere
 ALIAS_ALL_QUICK = ("4004", "4040")
+# quick tier: CPU variants of the DEVICE dimension that get no register-symbol run of their own (same DecodeReg path, forms a
+# subset of the device that has one); thorough: every variant
+ALIAS_SKIP_QUICK = ("AT90S2313",)
 
 
 GROUPS = {}
@@ -284,8 +289,9 @@ def judge(rep, cfg, cpu, case, src, line, rc, em, errs, sig=None, timeout=False,
     if case.get("ctxstmt"):
         at += " on the line directly after the statement '%s'" % case["ctxstmt"]
     if case.get("pre"):
-        at += " after the definitions [%s] (register symbol for %s)" % (
-            "; ".join(" ".join(isa_alias.def_text(d).split("\t")) for d in case["pre"]), case.get("reg"))
+        at += " after the definitions [%s] (%s for %s)" % (
+            "; ".join(" ".join(isa_alias.def_text(d).split("\t")) for d in case["pre"]), case.get("symkind", "register symbol"),
+            case.get("reg"))
     if timeout or sig is not None:
         rep.violation("%s %s: assembler crashed/hung on '%s'" % (cfg.name, cpu, stmt), case=case,
                       files={"a.asm": src}, key=key_of(cfg, cpu, case, "crash"))
@@ -634,7 +640,8 @@ def main(tier):
     # all TLC generator runs (single-worker JVMs) share one pool; longest first
     # register-symbol dimension: one run per CPU variant of the targets that have register symbols
     aliastodo = [(cfg, cpu, aslcpu, "all" if tier != "quick" or cpu in ALIAS_ALL_QUICK else "rotate")
-                 for cfg in ISAS if cfg.name in ALIAS for (cpu, aslcpu) in cfg.cpus_for(tier)]
+                 for cfg in ISAS if cfg.name in ALIAS for (cpu, aslcpu) in cfg.cpus_for(tier)
+                 if tier != "quick" or cpu not in ALIAS_SKIP_QUICK]
     tasks = [("gen", t) for t in todo] + [("seq", t) for t in seqtodo] + [("alias", t) for t in aliastodo]
     order = sorted(range(len(tasks)), key=lambda i: -WEIGHT.get(tasks[i][1][0].name, 1))
 
@@ -738,6 +745,9 @@ def main(tier):
              "every leaf of the Isa*_Alias graph: every form with a register field x field position x every register "
              "literal of the table (where the table is complete: also the registers the form does not take) x "
              "definition scenario of the register symbol the operand is written with; "
+             "+ (phase isavar) PIC16C8x devices with 2 / 4 program pages: CALL / GOTO x statement address in every page x target "
+             "in every page and beyond the device; MSP430 RLA / RLC (source = destination) x destination mode x register x operand "
+             "classes; AVR SBI / CBI / SBIC / SBIS with BIT symbols x address x bit x address spelling x definition spelling; "
              "distinct = distinct (ISA, CPU, statement text, address)",
         exhaustive=True)
 
